@@ -32,6 +32,7 @@ type SpecCtx struct {
 	bound    map[string]bool
 	srcArgs  map[string]ssa.Value // call-site SSA arguments (for reach())
 	atReturn bool
+	gateTop, gateB *ssa.BasicBlock // evaluating a gate: calls inside its decision region are visible
 	hdrBlock interface{}
 }
 
@@ -663,6 +664,62 @@ func (c *SpecCtx) evalCall(x *ECall) (Val, types.Type) {
 		fn := "|str-of " + typeKey(sl.Elem()) + "|"
 		e.declFun(fn, []Sort{cp.Sort, SInt, SInt, SInt}, SStr)
 		return app(SStr, fn, e.lookup(c.st, cp), sv.Base, sv.Off, sv.Len), types.Typ[types.String]
+	case "lastresult", "laststr":
+		// the value most recently returned by the named callee on the way here
+		if c.f == nil {
+			c.fail("%s outside a function body", x.Fun)
+		}
+		key, ok := x.Args[0].(*EStr)
+		if !ok {
+			c.fail("%s(\"callee\"[, i])", x.Fun)
+		}
+		lc, ok := c.f.lastRes[key.V]
+		at := c.f.blk
+		if hb, ok := c.hdrBlock.(*ssa.BasicBlock); ok && hb != nil {
+			at = hb
+		}
+		inGate := ok && c.gateTop != nil && lc.blk != nil && c.gateTop.Dominates(lc.blk) && cfgReaches(lc.blk, c.gateB)
+		if !ok || (at != nil && lc.blk != nil && !lc.blk.Dominates(at) && !inGate) {
+			// the call did not (necessarily) happen on the way here: its value is arbitrary
+			sig := c.f.calleeSig(strings.SplitN(key.V, "#", 2)[0])
+			if sig == nil {
+				c.fail("%s: no call site of %s in this function", x.Fun, key.V)
+			}
+			lc = lastCall{sig: sig, res: c.f.resultVal(sig, "nocall")}
+			if x.Fun == "laststr" {
+				return e.freshConst("nocall.str", SStr), types.Typ[types.String]
+			}
+		}
+		idx := 0
+		if len(x.Args) > 1 {
+			n, ok := x.Args[1].(*ENum)
+			if !ok {
+				c.fail("%s index must be a literal", x.Fun)
+			}
+			fmt.Sscanf(n.V, "%d", &idx)
+		}
+		rs := lc.sig.Results()
+		if idx >= rs.Len() {
+			c.fail("%s has %d results", key.V, rs.Len())
+		}
+		if x.Fun == "laststr" {
+			if idx >= len(lc.str) || lc.str[idx].S == "" {
+				c.fail("result %d of %s is not a byte slice", idx, key.V)
+			}
+			return lc.str[idx], types.Typ[types.String]
+		}
+		if tv, ok := lc.res.(TupleV); ok {
+			return tv[idx], rs.At(idx).Type()
+		}
+		return lc.res, rs.At(0).Type()
+	case "zero":
+		// zero("T"): the zero value of type T
+		id, ok := x.Args[0].(*EStr)
+		if !ok {
+			c.fail("zero(\"type\")")
+		}
+		t := c.resolveType(id.V)
+		return e.zeroVal(t), t
 	case "ifacestr":
 		// the interface value holding string s (as produced by converting a string to interface{})
 		v, _ := c.eval(x.Args[0])
